@@ -86,7 +86,7 @@ def run(module, cfg, env=None, workers=None, timeout=3600, simulate=None, depth=
     """Runs TLC with cwd = spec dir.  Returns TLCResult.  Raises TLCError only for machinery failure."""
     workers = workers or os.cpu_count() or 4
     meta = tempfile.mkdtemp(prefix="verif_tlc_")
-    cmd = ["java", "-XX:+UseParallelGC", "-Xss" + xss]
+    cmd = ["java", "-XX:+UseParallelGC", "-XX:ParallelGCThreads=4", "-Xss" + xss]
     if heap:
         cmd.append("-Xmx" + heap)
     cmd += ["-cp", JAR + ":" + CM, "tlc2.TLC", "-workers", str(workers), "-metadir", meta,
